@@ -1,6 +1,7 @@
 /- Driver command `exec`: run a kernel AST on given inputs over Rat or Float. -/
 import FfcxModel.LNodes.Wire
 import FfcxModel.LNodes.Scalars
+import FfcxModel.LNodes.ShapeDomain
 
 namespace Ffcx.Driver
 open Ffcx Ffcx.LNodes
@@ -55,6 +56,11 @@ def handleExec (args : List Sexp) : Except String Sexp := do
           match σ'.sa.get n with
           | some a => .list (.atom n :: a.data.toList.map floatToSexp)
           | none => .list [.atom n, .atom "missing"])
+    | "shape" =>
+      let σ ← readInputs (R := U) (fun _ => ⟨⟩) (← inputs.asList)
+      match exec uExtra s σ with
+      | .error e => return errToSexp e
+      | .ok _ => return .list [.atom "ok"]
     | m => throw s!"bad mode {m}"
   | _ => throw "exec: expected (exec mode stmt inputs outs)"
 
